@@ -6,17 +6,23 @@ from bounded import conv_drv
 def run(tier, seed):
     res = PropertyResult('C15', 'other', '')
     try:
-        from contracts import misc_c
+        from contracts import misc_c, conv_c
         from pyvc.verify import verify
-        res.report = verify(misc_c.targets_c15(), timeout_s=20)
+        res.report = verify(misc_c.targets_c15() + conv_c.targets(), timeout_s=20)
     except ImportError:
         res.report = None
-    res.explanation = ('Tier P (small, where discharged in this run): the popcount lookup table equals the bit count for all 256 entries (ground). Tier B (bounded, deciding): the '
+    res.explanation = ('Tier P (unbounded in the extents): kyupy.logic.unpackbits, packbits (dtype uint8; 1, 3, 8, 9 planes), mv_to_bp (1 and 2 axes), bp_to_mv (1, 2, 3, 8 planes) are executed '
+                       'symbolically from their current source on functional arrays (shape, index -> element) with symbolic extents; numpy bit packing primitives enter by assumed contracts '
+                       '(listed); proved element-wise for fresh index constants: result shapes, bit b of mv_to_bp(x)[i,p,j] = bit p of x[i,8j+b] with zero padding lanes, bit p of '
+                       'bp_to_mv(y)[i,t] = bit t%8 of y[i,p,t//8], and the round trip bp_to_mv(mv_to_bp(x))[i,t] = x[i,t] & 7 (0 on padding lanes) by running bp_to_mv on the *specified* '
+                       'result of mv_to_bp (modular). The popcount lookup table equals the bit count for all 256 entries (ground). Tier B (bounded): interpret/mvarray/mv_str/bparray and the '
                        'conversion contracts (lossless round trips, axis convention, padding lanes 0, value <-> character table incl. every alias, pack/unpack inverse for 9 dtypes) '
-                       'evaluated on the real functions against an independent bit-by-bit oracle over a stated space of shapes and strings. numpy bit twiddling '
-                       '(packbits/unpackbits/swapaxes/view) is not modelled by the VC generator.')
+                       'evaluated on the real functions against an independent bit-by-bit oracle over a stated space of shapes and strings. string/list handling '
+                       '(interpret, mvarray, mv_str) and the other dtypes of packbits are bounded only.')
     res.bounded = [conv_drv.part(tier, seed)]
-    res.assumptions = ['bounded over shapes (<= 3 axes, extents <= 10, 16, 17) and strings (length <= 4)',
+    res.assumptions = ["numpy contracts assumed by the functional array model: np.unpackbits/np.packbits(bitorder='little', with and without axis), swapaxes, np.pad(constant 0, end of last axis), "
+                       "last-axis slicing, np.newaxis, view(uint8) identity, reshape(flatten(x), shape(x)) = x",
+                       'bounded over shapes (<= 3 axes, extents <= 10, 16, 17) and strings (length <= 4)',
                        'several strings of length 1 passed to mvarray are not claimed (indistinguishable from one vector of scalars by the API design)']
     res.trusted_base = ['bounded/conv_drv.py']
     return res
